@@ -82,6 +82,7 @@ void k_unary_pred(Ctx& c)
 void t_unary_pred(Ctx& c)
 {
     k_unary_pred<KPtr>(c);
+    k_unary_pred<KCPtr>(c);
     k_unary_pred<KIn>(c);
     k_unary_pred<KFwd>(c);
 }
@@ -117,6 +118,7 @@ void k_by_value(Ctx& c)
 void t_by_value(Ctx& c)
 {
     k_by_value<KPtr>(c);
+    k_by_value<KCPtr>(c);
     k_by_value<KIn>(c);
     k_by_value<KFwd>(c);
 }
@@ -435,7 +437,11 @@ void k_search(Ctx& c)
         }
     }
 }
-void t_search_ptr(Ctx& c) { k_search<KPtr, KPtr>(c); }
+void t_search_ptr(Ctx& c)
+{
+    k_search<KPtr, KPtr>(c);
+    k_search<KCPtr, KCPtr>(c);
+}
 void t_search_fwd(Ctx& c)
 {
     k_search<KFwd, KFwd>(c);
@@ -536,6 +542,7 @@ void k_scan(Ctx& c)
 void t_scan(Ctx& c)
 {
     k_scan<KPtr>(c);
+    k_scan<KCPtr>(c);
     k_scan<KFwd>(c);
     k_scan<KRa>(c);
 }
@@ -546,6 +553,26 @@ void t_scalar(Ctx& c)
     std::size_t const n = c.a.size();
     if (n != 2 && n != 3) { return; }
     Seq const& m = c.a;
+    if (n == 2) {
+        // the function objects the defaulted overloads rest on
+        Trial t(c, "object", "less/equal_to function objects", Pres::exact, "", 99, "-");
+        Range<El> r(c.a, Pres::exact, false);
+        std::vector<long> obs = {etl::less<El>{}(r.lo[0], r.lo[1]), etl::less<>{}(r.lo[0], r.lo[1]), etl::less<>{}(r.lo[1], r.lo[0]),
+            etl::equal_to<El>{}(r.lo[0], r.lo[1]), etl::equal_to<>{}(r.lo[0], r.lo[1])};
+        std::vector<long> exp = {std::less<El>{}(m[0], m[1]), std::less<>{}(m[0], m[1]), std::less<>{}(m[1], m[0]), std::equal_to<El>{}(m[0], m[1]),
+            std::equal_to<>{}(m[0], m[1])};
+        t.nums("results", obs, exp);
+        t.done();
+        // ranges::in_fun_result converts member-wise
+        Trial t2(c, "object", "ranges::in_fun_result conversion", Pres::exact, "", 98, "-");
+        etl::ranges::in_fun_result<El*, int> src{r.lo + 1, m[0].key + 40};
+        etl::ranges::in_fun_result<El const*, long> lv = src;
+        etl::ranges::in_fun_result<El const*, long> rv = etl::ranges::in_fun_result<El*, int>{r.lo, 7};
+        std::vector<long> o2 = {lv.in - r.lo, lv.fun, rv.in - r.lo, rv.fun};
+        std::vector<long> e2 = {1, m[0].key + 40, 0, 7};
+        t2.nums("members", o2, e2);
+        t2.done();
+    }
     for (int cm = -1; cm <= 2; ++cm) {
         Comp cmp{cm < 0 ? 0 : cm};
         char op[48];
